@@ -336,9 +336,12 @@ def nontrivial(case):
 # ---------------------------------------------------------------------------------------------
 # tool level
 class Tool:
-    def __init__(self, name, argv, outputs, stdin=None, stdout=None, binary=None, prepare=None):
+    def __init__(self, name, argv, outputs, stdin=None, stdout=None, binary=None, prepare=None, focus=None):
         self.name, self.argv, self.outputs, self.stdin, self.stdout, self.binary = name, argv, outputs, stdin, stdout, binary
         self.prepare = prepare
+        # focus: in the quick tier enumerate only these syscall kinds (the configuration differs from an already fully
+        # enumerated one only in how its input is read); the thorough tier enumerates everything
+        self.focus = focus
 
 
 def make_inputs(ctx, d):
@@ -351,9 +354,10 @@ def make_inputs(ctx, d):
                 f.write(" ".join(words[rng.below(nw)] for _ in range(rng.range(2, 9))) + "\n")
     # a corpus that does not fit a 1 MB sort budget: the external sort really spills (several on-disk runs, MergeQueue refills)
     big = ["w%d" % i for i in range(700)]
-    with open(os.path.join(d, "corpus3.txt"), "w") as f:
-        for _ in range(3500):
-            f.write(" ".join(big[min(rng.below(700), rng.below(700))] for _ in range(rng.range(3, 12))) + "\n")
+    for name, ns in (("corpus3.txt", 3500), ("corpus4.txt", 2500)):
+        with open(os.path.join(d, name), "w") as f:
+            for _ in range(ns):
+                f.write(" ".join(big[min(rng.below(700), rng.below(700))] for _ in range(rng.range(3, 12))) + "\n")
     with open(os.path.join(d, "vocab.txt"), "w") as f:
         f.write("a b c d e x looking on also would\n")
     shutil.copy(os.path.join(vlib.REPO, "lm", "test.arpa"), os.path.join(d, "test.arpa"))
@@ -452,6 +456,7 @@ def profile(tool, workdir):
     ks = {sc: set() for sc in TRACED}
     total = {sc: 0 for sc in TRACED}
     wide = {sc: 0 for sc in TRACED}        # process-wide number of calls on descriptors > 2
+    seqs = {}                              # (thread, file) -> [(per-thread index, process-wide index, offset)] of the preads on temporary files
     if os.path.exists(tr):
         for line in open(tr, errors="replace"):
             m = LINE.match(line)
@@ -468,8 +473,19 @@ def profile(tool, workdir):
                 wide[sc] += 1
             if data_call(sc, args, workdir):
                 ks[sc].add(c)
+            if sc == "pread64":
+                mo = re.match(r"\d+<([^>]*)>(\(deleted\))?, .*, (\d+), (\d+)\)", args)
+                if mo and (mo.group(2) or mo.group(1).startswith(os.path.join(workdir, "tmp"))):
+                    seqs.setdefault((pid, mo.group(1)), []).append((c, wide[sc], int(mo.group(4))))
         os.remove(tr)
-    return rc, {sc: sorted(v) for sc, v in ks.items()}, total, wide
+    # merge refills (MergeQueue::Entry::Read over several sorted runs of one file): the offsets a thread reads from one temporary
+    # file jump back and forth between the runs; a single run is read with increasing offsets
+    refill = {"per_thread": set(), "wide": set()}
+    for seq in seqs.values():
+        if any(b[2] < a[2] for a, b in zip(seq, seq[1:])):
+            refill["per_thread"].update(x[0] for x in seq)
+            refill["wide"].update(x[1] for x in seq)
+    return rc, {sc: sorted(v) for sc, v in ks.items()}, total, wide, refill
 
 
 def magic_complete(b):
@@ -494,11 +510,13 @@ def tool_specs(bins, d):
         Tool("filter-single", [bins["filter"], "single", "threads:1", "model:../test.arpa", "out.arpa"], ["out.arpa"], stdin="../vocab.txt"),
         Tool("filter-raw", [bins["filter"], "single", "raw", "threads:1", "model:../corpus1.txt", "out.txt"], ["out.txt"], stdin="../vocab.txt"),
         # compressed input arriving through a pipe (not mmap-able: ReadFactory sniffs the format from read()s) and as a file
-        Tool("lmplz-gz-pipe", [L, "-o", "3"] + lm + ["-T", "tmp/", "--arpa", "out.arpa"], ["out.arpa"], stdin="pipe:../corpus1.txt.gz"),
-        Tool("lmplz-xz-pipe", [L, "-o", "3"] + lm + ["-T", "tmp/", "--arpa", "out.arpa"], ["out.arpa"], stdin="pipe:../corpus1.txt.xz"),
-        Tool("lmplz-bz2-file", [L, "-o", "3"] + lm + ["-T", "tmp/", "--text", "../corpus1.txt.bz2", "--arpa", "out.arpa"], ["out.arpa"]),
+        Tool("lmplz-gz-pipe", [L, "-o", "3"] + lm + ["-T", "tmp/", "--arpa", "out.arpa"], ["out.arpa"], stdin="pipe:../corpus1.txt.gz", focus=("read", "pread64", "mmap")),
+        Tool("lmplz-xz-pipe", [L, "-o", "3"] + lm + ["-T", "tmp/", "--arpa", "out.arpa"], ["out.arpa"], stdin="pipe:../corpus1.txt.xz", focus=("read", "pread64", "mmap")),
+        Tool("lmplz-bz2-file", [L, "-o", "3"] + lm + ["-T", "tmp/", "--text", "../corpus1.txt.bz2", "--arpa", "out.arpa"], ["out.arpa"], focus=("read", "pread64", "mmap")),
         Tool("build_binary-bz2-pipe", [bins["build_binary"], "probing", "/dev/stdin", "out.bin"], ["out.bin"], stdin="pipe:../test.arpa.bz2", binary="out.bin"),
         Tool("filter-gz-pipe-vocab-file", [bins["filter"], "single", "threads:1", "vocab:../vocab.txt", "out.arpa"], ["out.arpa"], stdin="pipe:../test.arpa.gz"),
+        Tool("interpolate-spill", [bins["interpolate"], "-m", "../im3", "../im4", "-w", "0.5", "0.5", "-T", "tmp/", "-S", "1M", "--sort_block", "16K"],
+             ["out.arpa"], stdout="out.arpa"),
         Tool("interpolate", [bins["interpolate"], "-m", "../im1", "../im2", "-w", "0.6", "0.4", "-T", "tmp/", "-S", "20M", "--sort_block", "64K"],
              ["out.arpa"], stdout="out.arpa"),
     ]
@@ -512,18 +530,36 @@ def fresh_dir(base, name):
     return p
 
 
-def choose_ks(ks, cap, rng):
-    """every k up to the cap, then a stride and the last ones"""
+def choose_ks(ks, cap, rng, must=()):
+    """all of them up to the cap; otherwise a stratified sample over the WHOLE range of call indices: the first few (set-up phase),
+    the last two, one random index from each of the remaining equal strata, and at least a third of the cap from `must`
+    (a class of calls that has to be represented, e.g. the merge-phase refills)"""
+    ks = list(ks)
     if len(ks) <= cap:
-        return list(ks)
-    head = ks[:cap * 2 // 3]
-    rest = ks[cap * 2 // 3:]
-    step = max(1, len(rest) // max(1, cap // 3 - 2))
-    picked = rest[::step]
-    for x in rest[-2:]:
-        if x not in picked:
-            picked.append(x)
-    return head + picked
+        return ks
+    picked = ks[:3] + ks[-2:]
+    mustl = [k for k in ks if k in must and k not in picked]
+    want = min(len(mustl), max(2, cap // 3))
+    for i in range(want):
+        lo, hi = i * len(mustl) // want, (i + 1) * len(mustl) // want
+        picked.append(mustl[lo + rng.below(max(1, hi - lo))])
+    rest = [k for k in ks if k not in picked]
+    n = max(0, cap - len(picked))
+    for i in range(n):
+        lo, hi = i * len(rest) // n, (i + 1) * len(rest) // n
+        if hi > lo:
+            picked.append(rest[lo + rng.below(hi - lo)])
+    return sorted(set(picked))
+
+
+def prepare_interpolate_inputs(bins, base):
+    """intermediate-format models: two small ones, two that do not fit a 1 MB sort budget"""
+    for i, corp, ve in ((1, "corpus1.txt", "1000"), (2, "corpus2.txt", "1000"), (3, "corpus3.txt", "4000"), (4, "corpus4.txt", "4000")):
+        w = fresh_dir(base, "prep%d" % i)
+        rc = run_cmd([bins["lmplz"], "-o", "3", "-S", "20M", "--vocab_estimate", ve, "--discount_fallback", "-T", "tmp/",
+                      "--text", "../" + corp, "--intermediate", "../im%d" % i], w)
+        if rc != 0:
+            raise vlib.InfraError("cannot prepare interpolate inputs (lmplz --intermediate rc=%d)" % rc)
 
 
 def tool_level(ctx, shim):
@@ -531,20 +567,14 @@ def tool_level(ctx, shim):
     base = os.path.join(ctx.scratch, "tools")
     os.makedirs(base, exist_ok=True)
     make_inputs(ctx, base)
-    # inputs of interpolate: two intermediate-format models
-    for i, corp in ((1, "corpus1.txt"), (2, "corpus2.txt")):
-        w = fresh_dir(base, "prep%d" % i)
-        rc = run_cmd([bins["lmplz"], "-o", "3", "-S", "20M", "--vocab_estimate", "1000", "--discount_fallback", "-T", "tmp/",
-                      "--text", "../" + corp, "--intermediate", "../im%d" % i], w)
-        if rc != 0:
-            raise vlib.InfraError("cannot prepare interpolate inputs (lmplz --intermediate rc=%d)" % rc)
+    prepare_interpolate_inputs(bins, base)
     specs = tool_specs(bins, base)
     cap = ctx.pick(12, 10 ** 9)
     errs_for = (lambda sc: [INJ_ERR[sc]]) if ctx.quick else (lambda sc: sorted({INJ_ERR[sc], "EIO", "ENOSPC", "ENOMEM"}))
     jobs = []
     baselines = {}
     stats = {"runs": 0, "nonzero": 0, "exit0_identical": 0, "signal": 0, "timeouts": 0, "complete_identical_after_failure": 0,
-             "per_tool": {}, "injection_points_total": {}}
+             "per_tool": {}, "injection_points_total": {}, "merge_refill_fault_points": {}}
     for t in specs:
         w = fresh_dir(base, t.name + ".base")
         rc = run_cmd(t.argv, w, t.stdin, t.stdout)
@@ -553,7 +583,7 @@ def tool_level(ctx, shim):
             ctx.report("tool-baseline:" + t.name, "fault-free run of %s fails (rc=%s)" % (t.name, rc), {"argv": t.argv, "rc": rc})
             continue
         w2 = fresh_dir(base, t.name + ".prof")
-        rc2, ks, total, wide = profile(t, w2)
+        rc2, ks, total, wide, refill = profile(t, w2)
         outs2 = read_outputs(w2, t.outputs)
         if rc2 != 0 or outs2 != outs:
             ctx.report("tool-determinism:" + t.name, "two fault-free runs of %s differ (second one under strace)" % t.name, {"argv": t.argv, "rc": rc2})
@@ -561,16 +591,27 @@ def tool_level(ctx, shim):
         baselines[t.name] = outs
         stats["injection_points_total"][t.name] = {sc: len(v) for sc, v in ks.items() if v}
         shutil.rmtree(w2, ignore_errors=True)
+        nref = {"points_per_thread": len(refill["per_thread"]), "points_process_wide": len(refill["wide"]), "injected": 0}
         for sc in TRACED:
-            for k in choose_ks(ks[sc], cap, ctx.rng):
+            if ctx.quick and t.focus and sc not in t.focus:
+                continue
+            for k in choose_ks(ks[sc], cap, ctx.rng, must=refill["per_thread"] if sc == "pread64" else ()):
+                if sc == "pread64" and k in refill["per_thread"]:
+                    nref["injected"] += 1
                 for err in errs_for(sc):
                     jobs.append((t, "inject", sc, k, err))
         # single faults counted process-wide through the shim (strace counts per thread): the tools that run threads
         if os.path.basename(t.argv[0]) in ("lmplz", "interpolate", "filter"):
             for sc, call in SHIM_CALLS.items():
+                if ctx.quick and t.focus and sc not in t.focus:
+                    continue
                 n = wide.get(sc, 0)
-                for k in choose_ks(list(range(1, n + 1)), ctx.pick(8, 10 ** 9), ctx.rng):
+                for k in choose_ks(list(range(1, n + 1)), ctx.pick(8, 10 ** 9), ctx.rng, must=refill["wide"] if sc == "pread64" else ()):
+                    if sc == "pread64" and k in refill["wide"]:
+                        nref["injected"] += 1
                     jobs.append((t, "shimfail", call, k, str(ERRNO[INJ_ERR[sc]])))
+        if nref["points_per_thread"]:
+            stats["merge_refill_fault_points"][t.name] = nref
         # the first read() on every descriptor returns only n bytes (a pipe whose writer has sent little so far): n below, at and
         # above the lengths callers want at once (compression magics 2, 3, 6)
         for n in ctx.pick((1, 2, 3, 5), (1, 2, 3, 4, 5, 6, 7)):
@@ -825,10 +866,7 @@ def replay(ctx, obj):
         os.makedirs(base, exist_ok=True)
         ctx.rng = vlib.Rng(obj.get("seed", 1))
         make_inputs(ctx, base)
-        for i, corp in ((1, "corpus1.txt"), (2, "corpus2.txt")):
-            w = fresh_dir(base, "prep%d" % i)
-            run_cmd([bins["lmplz"], "-o", "3", "-S", "20M", "--vocab_estimate", "1000", "--discount_fallback", "-T", "tmp/",
-                     "--text", "../" + corp, "--intermediate", "../im%d" % i], w)
+        prepare_interpolate_inputs(bins, base)
         t = [s for s in tool_specs(bins, base) if s.name == r["tool"]][0]
         w = fresh_dir(base, "base")
         rc0 = run_cmd(t.argv, w, t.stdin, t.stdout)
